@@ -239,12 +239,11 @@ fn parse(b: &[u8]) -> Option<Vec<Tok>> {
 }
 
 /// per token: end of its subtree, reference (kind, hash) with kind 0 empty / 1 terminal / 2 middle /
-/// 3 middle that is a two-leaf node or an (empty, two-leaf) chain above one; depth of the token
+/// 3 middle that is a two-leaf node or an (empty, two-leaf) chain above one
 struct Ann {
     end: Vec<usize>,
     kind: Vec<u8>,
     hash: Vec<[u8; 32]>,
-    depth: Vec<u16>,
     /// index of the MIDDLE token this token is a child of (usize::MAX for the root)
     parent: Vec<usize>,
     /// route (bit path) of every TRUNCATED token
@@ -253,9 +252,8 @@ struct Ann {
 
 fn annotate(toks: &[Tok]) -> Ann {
     let n = toks.len();
-    let mut a = Ann { end: vec![0; n], kind: vec![0; n], hash: vec![BLANK; n], depth: vec![0; n], parent: vec![usize::MAX; n], tr_routes: Vec::new() };
+    let mut a = Ann { end: vec![0; n], kind: vec![0; n], hash: vec![BLANK; n], parent: vec![usize::MAX; n], tr_routes: Vec::new() };
     fn go(toks: &[Tok], i: usize, route: &mut Vec<bool>, a: &mut Ann) -> usize {
-        a.depth[i] = route.len() as u16;
         match toks[i] {
             Tok::E => {
                 a.kind[i] = 0;
@@ -1079,18 +1077,17 @@ fn run(rep: &Report) {
 
     rep.set_rule(&format!(
         "U = 12 leaves (all eight 3-bit prefixes; pairs differing only in bit 255 / 254 / 128; 00..00, ff..ff), items = U + 4 outsiders. \
-         (1) roots: all 4096 subsets in 6 orders/duplications, plus every permutation and every permutation with one element duplicated (<=3 leaves: also triplicated) of all subsets with <= 4 leaves, through compute_merkle_set_root and MerkleSet::from_leafs().get_root() against the reference trie hash. \
-         (2) all 4096 subsets x 16 items x 2 construction orders: generate_proof states membership correctly and validate_merkle_proof accepts it. \
-         (3a) every proof tree with <= {} MIDDLE nodes whose leaves are EMPTY | TERMINAL x (5 shallow leaves + 1 outsider) | TRUNCATED h (every honest subtree hash of the set, its root, BLANK, its leaf values), for all 32 subsets of the shallow 5-leaf universe x 7 items. \
-         (3b) every single-step rewrite (swap children, truncate subtree, expand truncated fully/one level, add/drop/mirror (EMPTY,X) chain levels, retype or replace a leaf) of every honest proof: {}; plus every token-boundary(+-1 byte) prefix and 11 trailing-byte extensions on the sub-universe. \
-         (3c) chains of 250..258 MIDDLE levels (left or right, three kinds of top sibling) ending in every tree with <= {} MIDDLE nodes over the same kind of alphabet, for all 31 non-empty subsets of {{Z,Z1,Z2,F1,F}} x 8 items. \
-         distinct = subsets (1), (subset,item) pairs (2), and every different candidate proof that passed the root check (3).",
+         (1) roots: all 4096 subsets of U in 6 orders/duplications, plus every permutation and every permutation with one element duplicated (<=3 leaves: also triplicated) of all subsets with <= 4 leaves, through compute_merkle_set_root and MerkleSet::from_leafs().get_root() against the reference trie hash. \
+         (2) all 4096 subsets x 16 items x 2 construction orders (and all 128 subsets x 11 items of W): generate_proof states membership correctly, validate_merkle_proof accepts it, the proof reads as a tree hashing to the reference root. \
+         (3a) every proof tree with <= {} MIDDLE nodes whose leaves are EMPTY | TERMINAL x (5 shallow leaves + 1 outsider) | TRUNCATED h (every honest subtree hash of the set, its root, BLANK, its leaf values), for all 32 subsets of the shallow 5-leaf universe (prefixes 00,01,10,110,111) x 7 items. \
+         (3b) every single-step rewrite (swap children, truncate subtree, expand truncated fully / one level, add / drop one (EMPTY,X) level, mirror a whole (EMPTY,X) chain, retype or replace a leaf) of every honest proof of: all subsets of {} of U x 16 items, and all 128 subsets of W (7 leaves, chains of 9..13 levels) x 11 items{}; a rewrite of a proof with <= 64 tokens is validated against every item, of a longer proof against the proof's own item; plus every prefix cut at a token boundary +-1 byte (8 fixed cuts for proofs > 64 tokens) and 11 trailing-byte extensions of each of these honest proofs. \
+         (3c) chains of {}..258 MIDDLE levels, all-left or all-right, level-0 sibling EMPTY | honest other half truncated{}, ending in every tree with <= {} MIDDLE nodes over EMPTY | TERMINAL x (x of {{Z,Z1,Z2,F1,F}} on the chain's side) | TRUNCATED h (fork hashes and root of the set), for all 31 non-empty subsets of {{Z,Z1,Z2,F1,F}} x 8 items. \
+         Every candidate of (3) goes through validate_merkle_proof with the reference root of the set. distinct = subsets (1), (universe,subset,item) triples (2), and every different candidate proof that passed the root check (3).",
         if quick { 3 } else { 4 },
-        if quick {
-            "all subsets of the 7-leaf sub-universe {Z,Z1,Z2,P2,P4,P4b,F} x 16 items, each rewrite validated against all 16 items"
-        } else {
-            "all 4096 subsets x 16 items with each rewrite validated against the proof's own item, and all subsets of the 8-leaf sub-universe {Z,Z1,Z2,P2,P4,P4b,F1,F} with each rewrite validated against all 16 items and second-order rewrites of proofs with <= 12 tokens"
-        },
+        if quick { "{Z,Z1,Z2,F1,F} (32 sets)" } else { "{Z,Z1,Z2,P2,P4,P4b,F1,F} (256 sets)" },
+        if quick { "" } else { ", and over W every rewrite of every rewrite (validated against the proof's own item)" },
+        if quick { 252 } else { 250 },
+        if quick { "" } else { " | honest other half fully expanded" },
         if quick { 1 } else { 2 },
     ));
     rep.assume("SHA-256 (sha2 crate) is collision free on the enumerated inputs; soundness against proofs outside the enumerated families rests on that and is not established here");
@@ -1156,6 +1153,20 @@ fn run(rep: &Report) {
         rep.extra("enumerated_deep_chain_proofs", json!(total_deep));
     }
     lap("deep chains");
+
+    // informational, outside the property (the root is chosen by the prover here, not the root of a set):
+    // 255/256/257 hashed MIDDLE levels above a TRUNCATED node, validated against the proof's own root
+    let mut selfroot = serde_json::Map::new();
+    for k in [255usize, 256, 257] {
+        let mut t = vec![Tok::M; k];
+        t.push(Tok::Tr([0x77; 32]));
+        t.extend(std::iter::repeat_n(Tok::E, k));
+        let bytes = ser(&t);
+        let own_root = proof_root(&annotate(&t));
+        let v = real_validate(&bytes, &u[0], &own_root);
+        selfroot.insert(format!("{k}_levels"), json!(format!("{v:?}")));
+    }
+    rep.extra("outside_property_probe_adversarial_root_deep_chain", Value::Object(selfroot));
     rep.sample(json!({"phase":"deep","set":["Z","Z1"],"candidate":"256 x MIDDLE(.,EMPTY) then MIDDLE(TERMINAL Z, TERMINAL Z1)","why":"one level deeper than any real leaf: position 256 of the route is compared with bit 0 (u8 wrap) in the audit"}));
 }
 
